@@ -406,6 +406,12 @@ func structsEqual(x, y any) (err error) {
 		ytf := yrt.Field(i)
 		yvf := yrv.Field(i)
 
+		// private fields are not compared, and cannot
+		// be accessed through reflection in any case.
+		if !xtf.IsExported() && !ytf.IsExported() {
+			continue
+		}
+
 		xn := xtf.Name
 		yn := ytf.Name
 
